@@ -91,7 +91,7 @@ let () =
           | SOk t' ->
             (* fromNumpyDtype answers the platform int for i8/u8 *)
             let dt' = (match fmt, dt with "npy", "i64" -> "i" | "npy", "u64" -> "u" | _ -> dt) in
-            Printf.sprintf "E=ok D=ok dt=%s %s %s" dt' (tv_obs "D" dt impl_l t') s_obs in
+            Printf.sprintf "E=ok D=ok dt=%s %s %s F=same" dt' (tv_obs "D" dt impl_l t') s_obs in
         (* SPEC: either refused at encoding, or the same dtype, shape, logical elements (masked
            ones are open where the format has no mask) and the mask where the format carries it *)
         let refused = String.length impl >= 5 && String.sub impl 0 5 = "E=err" in
@@ -103,7 +103,7 @@ let () =
               let open_ = masked && not (carries_mask f) && (List.nth lm i = Ok true) in
               if open_ then (if i < Array.length impl_l then impl_l.(i) else "F")
               else cell dt [||] i r) (tv_logical src) in
-          Printf.sprintf "E=ok D=ok dt=%s D[%s|L:%s|K:%s] %s" dt (fzs src.tv_ap.shp)
+          Printf.sprintf "E=ok D=ok dt=%s D[%s|L:%s|K:%s] %s F=same" dt (fzs src.tv_ap.shp)
             (if ls = [] then "_" else String.concat "," ls)
             (if carries_mask f then mask_str lm masked else "-") s_obs in
         (* guard classes (the hypotheses of the round-trip theorems) *)
@@ -122,6 +122,12 @@ let () =
           | _ ->
             if fmt = "fb" && List.length a.str < List.length a.shp then "strides-short"
             else if not fits then "window" else "" in
+        (* the flag-consistency token F= of the decoded tensor is demanded only inside the guarded
+           domain; in a known-finding zone (a window that was not written whole, ...) the decoded
+           tensor is not a sound tensor anyway and the implementation's token is taken over *)
+        let f_impl = (match List.rev (String.split_on_char ' ' impl) with t :: _ when String.length t > 2 && String.sub t 0 2 = "F=" -> t | _ -> "F=same") in
+        let refix x = if guard = "" then x else Str.global_replace (Str.regexp_string "F=same") f_impl x in
+        let model = refix model and spec = refix spec in
         let cls =
           if model = spec then "" else
           Printf.sprintf "ser.%s:%s:%s" fmt (if guard = "" then "UNGUARDED" else guard) (symptom model spec) in
